@@ -177,7 +177,14 @@ def cnv_major_minor(attribute, arg, element):
         raise ValueError( "'%s' is not either 'minor' or 'major'" % arg)
     return str(arg)
 
-pattern_namespacedToken = re.compile(r'[0-9a-zA-Z_]+:[0-9a-zA-Z._\-]+\Z')
+# A namespaced token is a prefixed xsd:QName: NCName, colon, NCName (any name characters, not only ASCII).
+# NameStartChar and NameChar of XML 1.0 (fifth edition) without the colon, as the inside of a character class
+_NCNameStartChar = (u'A-Z_a-z\u00C0-\u00D6\u00D8-\u00F6\u00F8-\u02FF\u0370-\u037D\u037F-\u1FFF\u200C-\u200D'
+                    u'\u2070-\u218F\u2C00-\u2FEF\u3001-\uD7FF\uF900-\uFDCF\uFDF0-\uFFFD'
+                    + (u'\U00010000-\U000EFFFF' if sys.maxunicode >= 0x10000 else u''))
+_NCNameChar = _NCNameStartChar + u'\\-.0-9\u00B7\u0300-\u036F\u203F-\u2040'
+_NCName = u'[' + _NCNameStartChar + u'][' + _NCNameChar + u']*'
+pattern_namespacedToken = re.compile(_NCName + u':' + _NCName + u'\\Z')
 
 def cnv_namespacedToken(attribute, arg, element):
     global pattern_namespacedToken
